@@ -7,6 +7,15 @@ _TB = ("Trusted: TLC 1.8 and the CommunityModules Json/IOUtils modules; the simu
        "(blocking-collective matching rules of the MPI standard, not an MPI implementation); numpy; the harness' "
        "projection of code state onto spec variables. Bounded: exhaustive only inside the stated boxes, seeded sampling beyond.")
 CHECKS = {
+ "C01": {"level": "model_checking", "design_ref": "DESIGN.md section 8, C01",
+         "technique": "TLA+ spec (Layouts/LayoutAbs/LayoutBox) model-checked with TLC; every configuration TLC explored is replayed through LayoutHandler.transpose on simulated MPI ranks and the recorded calls are trace-validated (C01Trace) against the Block oracle",
+         "text": "TLC enumerates (small boxes, exhaustively) and samples (wider box) handler configurations - array rank, shape, process grid incl. "
+                 "leading extent 1, accepted layout sets - and checks the abstract layout model on each (blocks disjoint, cover every global "
+                 "index). Each explored configuration is replayed on the real LayoutHandler for all ordered layout pairs, with/without spare "
+                 "buffer, float/complex/int token payloads, sentinel-padded arrays of exactly bufferSize, random schedules and eager/rendezvous "
+                 "completion; every recorded call is one Transpose action of LayoutAbs and must leave exactly Block(shape, dest ordering, grid, "
+                 "rank) on every rank, complete, and leave the source bit-identical when a buffer is given.",
+         "note": _TB},
  "C02": {"level": "model_checking", "design_ref": "DESIGN.md section 8, C02",
          "technique": "TLA+ spec (Partition/Layouts) model-checked with TLC + trace validation of tables, Layout objects and Grid accessors recorded from the real classes",
          "text": "TLC checks the transcribed split formula against the formula-independent statement (exact tiling in rank order, "
